@@ -15,6 +15,11 @@ CLAIMED = {
         text="Per instantiation clamp<probe<S,N>> the select/compare tree feeding the single backend query is evaluated on every weak ordering of (c,lo,hi) with lo<=hi; "
              "values touched only through comparisons have finitely many order types, so the enumeration is complete for all coordinate values of that instantiation.",
         note="N in 1..3 (quick) / 1..4 (thorough), S in {size_t,unsigned,int,float,double}; NaN excluded; second sentence (memory safety over array storage) follows by composition with C01"),
+    "C11": dict(
+        level="proof", design="5/C11", technique="abstract interpretation of loop-free LLVM IR over order types (D-ord): gating condition of the backend query and output routing",
+        text="Per instantiation backup<probe<S,N,T,M>> the path condition of the single backend query and every output component are evaluated on all 13^N products of weak orderings of (c_i,lo_i,hi_i): "
+             "queried iff inside the closed box; outputs routed from backend value or default. Complete for all coordinate values since inputs are touched only by comparisons.",
+        note="quick: 11 instantiations N<=3; thorough: N,M in 1..4 x 5 coordinate types; NaN excluded"),
     "C20": dict(
         level="exploration", design="5/C20", technique="compile-time witness enumeration (static_assert units decided by the type checker)",
         text="Exhaustive enumeration, within the stated bounds, of index sequences; each case is a static_assert whose truth the C++ type checker "
